@@ -68,6 +68,8 @@ class GeometricMTF(SpotDiagram):
                 m = optic.paraxial.magnification()
                 FNO = FNO * (1 + np.abs(m) / p)
             self.max_freq = 1 / (wavelength * 1e-3 * FNO)
+        else:
+            self.max_freq = max_freq
 
         super().__init__(optic, fields, [wavelength], num_rays, distribution)
 
